@@ -159,4 +159,4 @@ def harnesses(world, tier, seed):
     hs.append(UpstreamOrder(name='upstream-chain-order', nan=2 if q else 3, nau=0, nad=0, types=('A', 'CNAME'), qtypes=(1,), oshapes=(3,), tshapes=(3,),
                             bounds={'reply': 'answers %d, each A or CNAME, owners/targets 3-label names symbolic over {a,b,c}' % (2 if q else 3), 'question': '3-label name, qtype A'},
                             assumptions=('the reply holds at most one CNAME per owner name',), expected_classes=('Answer', 'CNAME')))
-    return hs, (420 if q else 2400), None
+    return hs, (1500 if q else 5400), None
